@@ -14,15 +14,35 @@ type Instance struct {
 	Bodies []sched.Body
 	// Finish runs the quiescent epilogue after a complete execution and
 	// checks the oracles. outcome is a canonical digest of everything that
-	// was observed (used to count distinct outcomes); violation is "" if all
-	// oracles hold.
-	Finish func(res *sched.Result) (outcome string, violation string)
+	// was observed (used to count distinct outcomes); viols lists the oracle
+	// classes that failed (the scenario's Classes mask decides which of them
+	// count for the property being checked).
+	Finish func(res *sched.Result) (outcome string, viols []OViol)
 	// Describe returns a human-readable history of the execution (for replay files).
 	Describe func() []string
 }
 
+// Oracle classes. A property's check only counts the classes that state that property.
+const (
+	OLin    = 1 << iota // history linearizable w.r.t. the sequential reference (incl. final reads)
+	OFn                 // user-function invocation counts / arguments
+	ORange              // traversal: at most once per key, genuine values, quiescent Range == Loads
+	OCount              // quiescent Size/Count == physical entries
+	OTerm               // termination: deadlock, horizon, epilogue hang
+	OMon                // C16 monitors
+	OLedger             // evicted-callback ledger
+	OAll    = 0xffff
+)
+
+type OViol struct {
+	Class  int
+	Detail string
+}
+
 // Scenario is a closed concurrent program: a deterministic builder of instances.
 type Scenario struct {
+	Classes        int // oracle classes that decide the property this scenario is run for
+	ExpectOutcomes int // vacuity guard: at least this many distinct outcomes are expected
 	Name     string
 	Prop     string // property the scenario family belongs to
 	New      func() *Instance
@@ -38,6 +58,7 @@ type Scenario struct {
 type Violation struct {
 	Scenario string   `json:"scenario"`
 	Kind     string   `json:"kind"` // oracle | deadlock | horizon | panic | monitor
+	Signature string  `json:"signature"`
 	Detail   string   `json:"detail"`
 	Choices  []uint8  `json:"choices"`
 	History  []string `json:"history,omitempty"`
@@ -64,6 +85,7 @@ type ExploreStats struct {
 	SampleHist   []string       `json:"sample_history,omitempty"`
 	ThreadSteps  []int          `json:"thread_steps,omitempty"`
 	Deterministic bool          `json:"determinism_checked"`
+	OtherObs      int           `json:"observations_for_other_properties"` // oracle classes that belong to other properties failed (not counted here)
 }
 
 type ExploreOpts struct {
@@ -116,23 +138,38 @@ func replayChoices(sc *Scenario, choices []uint8) (kind, detail string, res *sch
 	res, inst = runOnce(sc, choices, 0, nil, true)
 	switch res.Outcome {
 	case sched.OComplete:
-		_, v := inst.Finish(res)
-		if v != "" {
+		_, vs := inst.Finish(res)
+		if v := pickViol(sc, vs); v != "" {
 			return "oracle", v, res, inst
 		}
 		return "", "", res, inst
 	case sched.ODeadlock:
-		return "deadlock", res.Detail, res, inst
+		if sc.Classes&OTerm != 0 {
+			return "deadlock", res.Detail, res, inst
+		}
 	case sched.OHorizon:
-		return "horizon", res.Detail, res, inst
+		if sc.Classes&OTerm != 0 {
+			return "horizon", res.Detail, res, inst
+		}
 	case sched.OPanic:
 		return "panic", res.Detail, res, inst
 	case sched.OMonitor:
-		return "monitor", res.Detail, res, inst
+		if sc.Classes&OMon != 0 {
+			return "monitor", res.Detail, res, inst
+		}
 	case sched.OInfra:
 		return "infra", res.Detail, res, inst
 	}
 	return "", "", res, inst
+}
+
+func pickViol(sc *Scenario, vs []OViol) string {
+	for _, v := range vs {
+		if v.Class&sc.Classes != 0 {
+			return v.Detail
+		}
+	}
+	return ""
 }
 
 func choicesOf(res *sched.Result) []uint8 {
@@ -189,9 +226,14 @@ func Explore(sc *Scenario, opts ExploreOpts) *ExploreStats {
 		switch res.Outcome {
 		case sched.OComplete:
 			st.Complete++
-			out, v := inst.Finish(res)
+			out, vs := inst.Finish(res)
 			st.Outcomes[out]++
-			if v != "" {
+			for _, v := range vs {
+				if v.Class&sc.Classes == 0 {
+					st.OtherObs++
+				}
+			}
+			if v := pickViol(sc, vs); v != "" {
 				vkind, vdetail = "oracle", v
 			}
 			np := 0
@@ -236,13 +278,25 @@ func Explore(sc *Scenario, opts ExploreOpts) *ExploreStats {
 		case sched.OPruned:
 			st.Pruned++
 		case sched.ODeadlock:
-			vkind, vdetail = "deadlock", res.Detail
+			if sc.Classes&OTerm != 0 {
+				vkind, vdetail = "deadlock", res.Detail
+			} else {
+				st.OtherObs++
+			}
 		case sched.OHorizon:
-			vkind, vdetail = "horizon", res.Detail
+			if sc.Classes&OTerm != 0 {
+				vkind, vdetail = "horizon", res.Detail
+			} else {
+				st.OtherObs++
+			}
 		case sched.OPanic:
 			vkind, vdetail = "panic", res.Detail
 		case sched.OMonitor:
-			vkind, vdetail = "monitor", res.Detail
+			if sc.Classes&OMon != 0 {
+				vkind, vdetail = "monitor", res.Detail
+			} else {
+				st.OtherObs++
+			}
 		case sched.OInfra:
 			st.Infra = res.Detail
 			st.Exhaustive = false
@@ -272,7 +326,8 @@ func Explore(sc *Scenario, opts ExploreOpts) *ExploreStats {
 					st.WallMs = time.Since(t0).Milliseconds()
 					return st
 				}
-				v := Violation{Scenario: sc.Name, Kind: vkind, Detail: vdetail, Choices: ch, Schedule: scheduleStrings(rr)}
+				v := Violation{Scenario: sc.Name, Kind: vkind, Detail: vdetail, Choices: ch, Schedule: scheduleStrings(rr),
+					Signature: vkind + ": " + firstLine(vdetail) + " @ " + sc.Name}
 				if ri != nil && ri.Describe != nil {
 					v.History = ri.Describe()
 				}
